@@ -56,13 +56,18 @@ structure Acc (A : Type) where
   zero : A
   add  : A → A → A
 
-/-- generic additive class: state is the accumulator itself. `chk` is the
-    validate-then-mutate gate of `update`. -/
-def additive {A : Type} (M : Acc A) (chk : B → Except Err Unit) (stat : B → A)
+/-- generic additive class: the state is the accumulator itself. `stat` is the
+    functional `_update` (validation + per-batch statistics; an error leaves the
+    state untouched: validate-then-mutate). -/
+def additive {A : Type} (M : Acc A) (stat : B → Except Err A)
     (outA : A → Except Err O) : Impl B A O where
   init := M.zero
-  upd s b := do chk b; .ok (M.add s (stat b))
+  upd s b := do let a ← stat b; .ok (M.add s a)
   mrg s ss := .ok (ss.foldl M.add s)
   out := outA
+
+/-- total view of a partial statistic (only used on batches that passed validation). -/
+def statT {A : Type} (M : Acc A) (stat : B → Except Err A) (b : B) : A :=
+  match stat b with | .ok a => a | .error _ => M.zero
 
 end TE
